@@ -45,7 +45,7 @@ def run(ctx):
     jobs, infos = [], []
     flags = ["-std=c++14", "-O0", "-gline-tables-only", "-fsanitize=address,undefined", "-fno-sanitize-recover=all", "-fno-omit-frame-pointer"]
     for i in range(n_mod):
-        gm = gen_view.ViewModule(ctx.rng)
+        gm = gen_view.ViewModule(ctx.rng, features={"top_param": False, "import": False})
         text = gm.text()
         try:
             ir, errors = compile_ir(text)
